@@ -43,6 +43,7 @@ struct Opts {
     letanchors: Vec<String>, // local names after whose `let` an `after_let NAME K` anchor is emitted
     fieldty: Vec<(String, String)>, // struct take: replace the type of a field (R4 for `dyn Fn` fields)
     structural: bool,       // struct/enum take: re-emit derive(PartialEq, Eq) as derive(Structural, PartialEq, Eq) when the original derives both
+    optmap: bool,           // R32: `X.map(|p| IO)` in this take is Option::map
     r28: bool,              // R28: `X.and_then(|p| BODY)` with I/O in BODY -> `match X { Ok(p) => BODY, Err(e) => Err(e) }`
     mac_for: Option<(String, String)>, // macro instantiation: use the invocation whose metavariable .0 equals .1
     anchors: Vec<String>,   // callee names after whose enclosing statement an `after_call NAME K` anchor is emitted
@@ -77,6 +78,7 @@ fn parse_opts(s: &str) -> Opts {
             "nofmt" => o.nofmt = true,
             "anchors" => o.anchors = list(),
             "r28" => o.r28 = true,
+            "optmap" => o.optmap = true,
             "structural" => o.structural = true,
             "mac_for" => o.mac_for = v.split_once(':').map(|(a, b)| (a.to_string(), b.to_string())),
             "fieldty" => o.fieldty = list().iter().filter_map(|x| x.split_once(':').map(|(a, b)| (a.to_string(), b.to_string()))).collect(),
@@ -457,16 +459,21 @@ impl VisitMut for Rw {
         if (self.o.world || self.o.worldself) {
             if let Expr::MethodCall(mc) = e {
                 let m = mc.method.to_string();
-                if (m == "or_else" || m == "map" || m == "and_then") && mc.args.len() == 1 && !(m == "and_then" && self.o.r28) {
+                if (m == "or_else" || m == "map" || m == "and_then" || m == "filter") && mc.args.len() == 1 && !(m == "and_then" && self.o.r28) {
                     if let Expr::Closure(c) = &mc.args[0] {
                         let bt = c.body.to_token_stream().to_string();
-                        let io = bt.contains("fs ::") || self.o.worldfns.iter().any(|f| bt.contains(&format!("{} (", f)) || bt.contains(&format!("{} ::", f)));
+                        let io = bt.contains("fs ::") || self.o.worldfns.iter().any(|f| bt.contains(&format!("{} (", f)) || bt.contains(&format!("{} ::", f)))
+                            || self.o.worldm.iter().any(|f| bt.contains(&format!(". {} (", f)));
                         if c.inputs.len() == 1 && io {
                             let recv = (*mc.receiver).clone(); let pat = c.inputs[0].clone(); let body = (*c.body).clone();
-                            self.bump("R31");
+                            // `optmap`: in this take, map/filter with an I/O closure are Option's (R32), not Result's
+                            self.bump(if m == "filter" || (m == "map" && self.o.optmap) { "R32" } else { "R31" });
                             let mut ne: Expr = match m.as_str() {
                                 "or_else" => parse_quote!(match #recv { Ok(__v) => Ok(__v), Err(#pat) => #body }),
+                                "map" if self.o.optmap => parse_quote!(match #recv { Some(#pat) => Some(#body), None => None }),
                                 "map" => parse_quote!(match #recv { Ok(#pat) => Ok(#body), Err(__e) => Err(__e) }),
+                                // Option::filter(|p| BODY): the predicate sees a reference to the value
+                                "filter" => parse_quote!(match #recv { Some(__v) => { let #pat = &__v; if #body { Some(__v) } else { None } }, None => None }),
                                 _ => parse_quote!(match #recv { Ok(#pat) => #body, Err(__e) => Err(__e) }),
                             };
                             self.visit_expr_mut(&mut ne);
